@@ -73,8 +73,8 @@ def observe(cfg: dict, ctx: Ctx, rng: random.Random, budget_factor: int = 8) -> 
     nb = cfg["nb"]
     budget = budget_factor * (4 * nb + 2) * nb + 50
     obs = run_write(mesh, budget, ctx.tmp)
-    if cfg.get("rounds", 1) > 1 and obs["outcome"] == "Written":
-        # Grading.tla's Regrade: the user writes the same assembled mesh once more
+    if cfg.get("rounds", 1) > 1 and obs["outcome"] in ("Written", "Undefined", "Inconsistent"):
+        # Grading.tla's Regrade: the user writes the same assembled mesh once more (after an error: a retry)
         force_schedule(mesh, rng)
         obs["second"] = run_write(mesh, budget, ctx.tmp, tag="m2")
     return obs
@@ -91,6 +91,13 @@ def judge_outcome(prop: str, cfg: dict, obs: dict):
         return ("partial-file", f"a dictionary was left on disk although writing ended with {got}")
     if got not in allowed:
         return (f"expected:{exp}->got:{got.split(':')[0]}", f"specification outcome {exp}, implementation {got}")
+    if got != "Written" and "second" in obs:
+        again = obs["second"]
+        if again.get("partial_file"):
+            return ("rewrite:partial-file", f"a dictionary was left on disk although the second attempt ended with {again['outcome']}")
+        if again["outcome"] not in allowed:
+            return (f"rewrite:expected:{exp}->got:{again['outcome'].split(':')[0]}",
+                    f"the first attempt to write ended with {got}; the second, on the same mesh, with {again['outcome']} (specification: {exp})")
     if got == "Written":
         blocks = file_blocks_as_lattice(obs["file"])
         if len(blocks) != cfg["nb"]:
